@@ -20,6 +20,7 @@ from .w_client import clean_exc
 
 UTC = datetime.timezone.utc
 NICK = "mybank"
+NICK2 = "otherbank"        # a nickname that neither the FI database nor the pre-existing user file knows
 LIBDIR = simfs.ROOT + "/lib"
 CFGFILE = simfs.ROOT + "/cfg/ofxtools/ofxget.cfg"
 PASSWORD = "pw-S3CRET-Zq9"
@@ -131,8 +132,10 @@ class OfxgetWorld:
         self.runs = []
         self.nontrivial = False
         self.fis = {}
-        self.fidb = {}
-        self.user_model = {}            # what the user section should currently yield
+        self.nick = NICK                # nickname of the run being prepared / judged
+        self.section_exists = {NICK: True, NICK2: False}   # fi.cfg always has [mybank]
+        self.fidbs = {NICK: {}, NICK2: {}}
+        self.user_models = {NICK: {}, NICK2: {}}      # what each user section should currently yield
         self.default_clientuid = None
         self.user_default = {}          # non-clientuid options in the user's [DEFAULT] section
         self.home_down = False
@@ -142,6 +145,22 @@ class OfxgetWorld:
         self.stmt_error = 0
         self.source_stats = {}
         self.unspecified = set()
+
+    @property
+    def fidb(self):
+        return self.fidbs[self.nick]
+
+    @fidb.setter
+    def fidb(self, v):
+        self.fidbs[self.nick] = v
+
+    @property
+    def user_model(self):
+        return self.user_models[self.nick]
+
+    @user_model.setter
+    def user_model(self, v):
+        self.user_models[self.nick] = v
 
     def violate(self, prop, inv, sub, message, **facts):
         key = f"{prop}/{inv}/{sub}"
@@ -293,7 +312,8 @@ class OfxgetWorld:
                 if opt in m and isinstance(m[opt], bool):
                     out[opt], src[opt] = m[opt], name
                     break
-        if "clientuid" not in out and self.default_clientuid:
+        # (ConfigParser semantics: [DEFAULT] values reach a nickname only once it has a section of its own)
+        if "clientuid" not in out and self.default_clientuid and self.section_exists.get(self.nick):
             out["clientuid"], src["clientuid"] = self.default_clientuid, "user-default"
         unspecified = [opt for opt in self.user_default if src.get(opt) not in ("cli", "user")]
         for opt in unspecified:
@@ -366,7 +386,7 @@ class OfxgetWorld:
         try:
             with contextlib.redirect_stdout(io.StringIO()), contextlib.redirect_stderr(io.StringIO()):
                 importlib.reload(ofxget)
-                ns = ofxget.make_argparser().parse_args(["stmt", NICK])
+                ns = ofxget.make_argparser().parse_args(["stmt", self.nick])
                 args = ofxget.merge_config(ns, ofxget.USERCFG)
                 return {k: args[k] for k in PERSISTABLE if k in args}, None
         except SystemExit as e:
@@ -429,6 +449,15 @@ class OfxgetWorld:
             if run.file_after is None:
                 self.violate("C18", "L2-persist", "no-file", f"run{run.n}: --write succeeded but no configuration file exists")
                 return
+            self.section_exists[self.nick] = True
+            if self.default_clientuid is None:
+                # learn the generated default from the file (the observer below can only show it when the
+                # nickname's own section does not override it)
+                import re
+                mm = re.search(rb"^\[DEFAULT\][^\[]*?^clientuid\s*[=:]\s*(\S+)", run.file_after, re.M | re.S)
+                if mm:
+                    self.default_clientuid = mm.group(1).decode()
+                    sim.log(f"default CLIENTUID created: {self.default_clientuid}")
             obs, err = self.observe(run.n)
             self.sim.count("probe.write_then_read_pairs")
             if obs is None:
@@ -799,6 +828,7 @@ def scan_run(world, n):
     for fi in world.fis.values():
         fi.reject_fn = lambda fi, hdr, body, acc=accepted: hdr["_version"] not in acc
     simexec.MAX_WORKERS_OVERRIDE = [44, 3, 1, 8][ch.pick("scan.max_workers", 4)]
+    world.nick = NICK
     argv = ["scan", NICK]
     for opt, v in cli.items():
         argv += [CLI_FLAG[opt], str(v)]
@@ -841,6 +871,10 @@ def drive(world, tier):
         if focus == "C18" and ch.flag("run.scan", 0.05 if tier == "quick" else 0.1):
             scan_run(world, n)
             continue
+        # most runs are for one server nickname; some for a second one that starts without any section
+        # (only when the user's [DEFAULT] section holds nothing but the CLIENTUID: how other [DEFAULT] options
+        #  apply to a nickname without a section is not stated by the property)
+        world.nick = NICK2 if (focus == "C18" and not world.user_default and ch.flag("run.other_nick", 0.2)) else NICK
         if focus == "C18":
             cmd = ["stmt", "prof", "stmtend", "acctinfo"][ch.weighted("run.cmd", [6, 2, 1, 1])]
         else:
@@ -857,7 +891,8 @@ def drive(world, tier):
                 p = 0.35        # the one option with a generated default and a [DEFAULT]-section life of its own
             if ch.flag("cli." + opt, p):
                 cli[opt] = True if opt in BOOLS else world.draw_value(opt, "cli")
-        if n == 0 and "url" not in cli and ch.flag("cli.url.first", 0.7):
+        if (n == 0 or (world.nick == NICK2 and null(world.user_model.get("url")))) and "url" not in cli \
+                and ch.flag("cli.url.first", 0.7 if world.nick == NICK else 0.95):
             cli["url"] = world.draw_value("url", "cli")
         write = ch.flag("cli.write", 0.45 if focus == "C18" else 0.2)
         dryrun = ch.flag("cli.dryrun", 0.25)
@@ -874,7 +909,7 @@ def drive(world, tier):
         if cmd == "acctinfo":
             world.acct_spec = draw_accounts(world)
             sim.log(f"server account list: {[(a['kind'], a.get('accttype'), a['acctid'], a['status']) for a in world.acct_spec]}")
-        argv = [cmd, NICK]
+        argv = [cmd, world.nick]
         for opt, v in cli.items():
             if opt in BOOLS:
                 argv.append(CLI_FLAG[opt])
